@@ -46,8 +46,8 @@ def segment(draw):
 
 
 cfg_strategy = st.fixed_dictionaries({
-    'spelling': st.sampled_from(SPELLINGS), 'page_s3': st.sampled_from([1, 2, 3, 5, 1000]),
-    'page_b2': st.sampled_from([1, 2, 3, 5, 10000]), 'token_style': st.integers(0, 4), 'b2_restricted': st.booleans(),
+    'spelling': st.sampled_from(SPELLINGS), 'page_s3': st.sampled_from([1, 1, 2, 2, 3, 5, 1000]),
+    'page_b2': st.sampled_from([1, 1, 2, 2, 3, 5, 10000]), 'token_style': st.integers(0, 4), 'b2_restricted': st.booleans(),
     'b2_by_id': st.booleans(), 'segments': st.lists(segment(), min_size=3, max_size=8, unique=True),
 })
 
@@ -57,6 +57,8 @@ RULES = {
     'upload': (3, st.builds(lambda n, size, seed: {'op': 'upload', 'name': n, 'size': size, 'seed': seed}, name_spec, st.integers(0, 20), st.integers(0, 99))),
     'upload_stream': (3, st.builds(lambda n, size, seed, c: {'op': 'upload_stream', 'name': n, 'size': size, 'seed': seed, 'chunk': c},
                                    name_spec, st.integers(0, 20), st.integers(0, 99), st.sampled_from([1, 3, 7, 20, 128000]))),
+    'overwrite': (2, st.builds(lambda k, size, seed, c: {'op': 'upload_stream' if c else 'upload', 'pick': k, 'name': [0], 'size': size, 'seed': seed,
+                                                         'chunk': c or 7}, st.integers(0, 9), st.integers(0, 20), st.integers(100, 199), st.sampled_from([0, 0, 1, 3]))),
     'delete': (2, st.builds(lambda k, n: {'op': 'delete', 'pick': k, 'name': n}, st.integers(-1, 9), name_spec)),
     'exists': (1, st.builds(lambda k, n: {'op': 'exists', 'pick': k, 'name': n}, st.integers(-1, 9), name_spec)),
     'download': (1, st.builds(lambda k: {'op': 'download', 'pick': k}, st.integers(0, 9))),
@@ -181,7 +183,7 @@ class Sim:
         k = op['op']
         results = {}
         if k in ('upload', 'upload_stream'):
-            name = self.name_of(op['name'])
+            name = self.existing(op['pick']) if op.get('pick') is not None else self.name_of(op['name'])
             if name is None:
                 return None
             import random
